@@ -302,6 +302,51 @@ func runC01(c *Ctx, idx int) {
 					return
 				}
 			}
+		case sub%64 == 7: // boundary URLs in everything that takes an address apart, and pagers with decorated current pages
+			c.Inc("boundary_url_cases")
+			c.CPUBound(20 * time.Second) // a few hundred pages of < 2 kB
+			hosts := []string{"twitter.com", "www.youtube.com", "player.vimeo.com", "example.com"}
+			paths := []string{"", "/", "/status", "/u/status", "/u/status/", "/u/statuses", "/i/web/statuses#top", "/u/status/1/photo", "/status/status", "/embed", "/embed/", "/embed//", "/v", "/v/", "/v/&", "/video", "/video/", "/watch", "/watch?", "/watch?v", "/watch?v=", "/watch?v=&v=", "/watch?v=%", "?", "#", "/?#", "/%", "/%zz", "/a%2", "//", "/..", "/../..", "/&", "&x=1", ":", ":0", ":99999", "@", "/@/", "/ ", "/\t", "/a b", "/\u00e9", "/?page=", "/page/", "/page/0", "/page/-1", "/page/99999999999999999999"}
+			schemes := []string{"https://", "//", "", "http://"}
+			n := 0
+			for hi, h := range hosts {
+				for pi, p := range paths {
+					sch := schemes[(hi+pi+sub/64)%len(schemes)]
+					u := html.EscapeString(sch + h + p)
+					doc := `<html><head><title>w1q w2q w3q</title></head><body><p>w3q w4q w5q w6q w7q w8q w9q w10q w11q w12q w13q w14q.</p>` +
+						`<blockquote class="twitter-tweet"><p>w20q w21q</p>&mdash; w22q <a href="` + u + `">w23q</a></blockquote>` +
+						`<iframe src="` + u + `" data-tweet-id="5"></iframe><iframe src="` + u + `"></iframe>` +
+						`<object data="` + u + `" type="application/x-shockwave-flash"></object><object><param name="movie" value="` + u + `"></object>` +
+						`<img src="` + u + `" srcset="` + u + ` 1x" width="600" height="400"><video poster="` + u + `"><source src="` + u + `"><track src="` + u + `"></video>` +
+						`<p>w30q w31q w32q w33q w34q w35q w36q w37q w38q w39q <a href="` + u + `">w40q</a>.</p><div><a href="` + u + `">1</a> 2 <a href="` + u + `">3</a> <a href="` + u + `">next</a></div></body></html>`
+					o := r.opts()
+					if n%3 == 0 {
+						o = &distiller.Options{OriginalURL: parseOddURL(sch + h + p), PaginationAlgo: distiller.PaginationAlgo(n / 3 % 2)} // the page itself is at that address
+					}
+					n++
+					c.Inc("boundary_url_pages")
+					if !c.c01Bytes("boundary-url", doc, o, false) {
+						return
+					}
+				}
+			}
+			// conventional pagers in every decoration of the current page (hidden notes next to it included), both algorithms
+			for fi, fam := range pagerFamilies {
+				for deco := 0; deco < 6; deco++ {
+					for _, pn := range []bool{false, true} {
+						sp := pagerSpec{Fam: fam, N: 3 + (fi+deco)%5, K: 1 + (fi+deco+sub/64)%3, Form: hrefForms[(fi+deco)%len(hrefForms)], Sep: (deco + sub/64) % len(pagerSeps), Deco: deco, Wrap: (fi + sub/64) % 6, PrevNext: pn, Labels: deco % len(nextLabels), WithNums: true}
+						pg := conventionalPager(sp, r)
+						algo := distiller.PageNumber
+						if pn {
+							algo = distiller.PrevNext
+						}
+						c.Inc("decorated_pager_pages")
+						if !c.c01Bytes("decorated-pager", pg.HTML, &distiller.Options{OriginalURL: mustURL(pg.PageURL), PaginationAlgo: algo}, false) {
+							return
+						}
+					}
+				}
+			}
 		case sub%64 == 5: // byte streams in encodings other than UTF-8 (with and without byte order mark)
 			prof := fullProfile()
 			prof.MaxBlocks = 6
